@@ -8,6 +8,8 @@
   Part 2 (draw level, RAPID_PROTOCOL.md): `MessageGenerator` is a deterministic function of the sequence
   of values `rapid` hands out. rapid itself is a black box supplying draws (`Draw`); `setFields` /
   `generate` replay a draw sequence; theorems (Properties/C18Draws.lean) quantify over all draw sequences.
+  Options modelled: `NoEmptyLists`, `DisallowNilMessages` and `FieldMaps` (`GenOpts.mapper`, by kind); not
+  modelled: Any type URLs / interface hints.
 
   Representation. The generator is defined **directly on `Val`**, on the abstract (`repNorm`) form of a
   message: blobs carry no nil flag, lists are `.list false es`, maps are `.map false es` with the entries
@@ -65,14 +67,22 @@ def getF64 : Draw → Nat | num _ _ (some n) => n | _ => 0
 def getBlob : Draw → Bytes | str b => b | bytes b => b | _ => []
 end Draw
 
-/-- `GeneratorOptions` (the modelled part: no `FieldMaps`, no Any type URLs) -/
+/-- `GeneratorOptions` (the modelled part: no Any type URLs).
+    `mapper` models `FieldMaps`: `genScalarFieldValue` first asks every `FieldMapper` `fm(t, field, name)`; the
+    first one answering `(v, true)` decides the value and NO draw is consumed for that scalar. The model takes
+    the combined answer of the mapper list as a pure function of the field's KIND (`none` = no mapper
+    answers; this is how the engine's mappers answer — a mapper that looks at the field name or draws from
+    `t` itself is not modelled). Mappers are offered every scalar: singular and oneof scalar fields, list
+    elements, map keys and scalar map values; never a message field. -/
 structure GenOpts where
   noEmptyLists : Bool := false
   disallowNil : Bool := false
-  deriving Repr, Inhabited, DecidableEq
+  mapper : Kind → Option Val := fun _ => none
+  deriving Inhabited
 
 /-- the rapid generator a draw is taken from -/
 inductive Gen
+  | flag                     -- `Bool()` drawn by the generator itself: the `gen-<name>` and `empty` draws
   | bool | int32 | uint32 | int64 | uint64 | float32 | float64 | string | bytes
   | count (min : Nat)        -- `IntRange(min, 10)`
   | enumIdx (n : Nat)        -- `Int32Range(0, n-1)`
@@ -80,6 +90,7 @@ inductive Gen
 
 /-- the draw has the Go type of the generator (a token of another type makes the replay `stuck`) -/
 def Gen.accepts : Gen → Draw → Bool
+  | .flag, .bool _ => true
   | .bool, .bool _ => true
   | .string, .str _ => true
   | .bytes, .bytes _ => true
@@ -96,6 +107,7 @@ def Gen.accepts : Gen → Draw → Bool
 /-- the draw lies in the range of the generator: rapid's contract. For `String()` this is the
     assumption that rapid yields valid UTF-8. -/
 def Gen.inRange : Gen → Draw → Bool
+  | .flag, _ => true
   | .bool, _ => true
   | .bytes, _ => true
   | .string, d => utf8Valid d.getBlob
@@ -178,8 +190,12 @@ def scalarVal (E : List Int) (k : Kind) (d : Draw) : Val :=
   | .double => .bits (d.getF64 % 18446744073709551616)
   | .enum => .bits (ofInt32 (genEnum E d.getInt.toNat))
 
-def genScalar (E : List Int) (k : Kind) (ds : List Draw) : R Val :=
-  (draw (scalarGen E k) ds).map (scalarVal E k)
+/-- `genScalarFieldValue`: the mapper's value as it is, without consuming a draw, when a mapper answers for
+    the kind; otherwise the draw of the kind's generator. -/
+def genScalar (o : GenOpts) (E : List Int) (k : Kind) (ds : List Draw) : R Val :=
+  match o.mapper k with
+  | some w => .ok w ds []
+  | none => (draw (scalarGen E k) ds).map (scalarVal E k)
 
 /-- `field.Kind() == protoreflect.MessageKind`: message-typed fields of every cardinality **and every map
     field** (a map field's kind is that of its entry message). -/
@@ -190,9 +206,9 @@ def isMsgKind (f : FieldDesc) : Bool :=
   | _, .scalar _ => false
 
 /-- list of scalars: `for i < n { list.Append(genScalarFieldValue) }` -/
-def listScalars (E : List Int) (k : Kind) : Nat → List Val → List Draw → R (List Val)
+def listScalars (o : GenOpts) (E : List Int) (k : Kind) : Nat → List Val → List Draw → R (List Val)
   | 0, es, ds => .ok es ds []
-  | n+1, es, ds => (genScalar E k ds).bind fun v rest => listScalars E k n (es ++ [v]) rest
+  | n+1, es, ds => (genScalar o E k ds).bind fun v rest => listScalars o E k n (es ++ [v]) rest
 
 /-- list of messages: `for i < n { if !setFields(list.AppendMutable(), depth+1) { list.Truncate(i) } }`.
     `i` is the loop index — not the length before the append. `child mi v` is `setFields(v, depth+1)` for
@@ -207,22 +223,22 @@ def listMsgs (S : Schema) (child : Nat → Val → List Draw → R (Bool × Val)
       else .stuck rest.length .truncate
 
 /-- map with scalar values: `key ← draw; value ← draw; m.Set(key, value)` -/
-def mapScalars (E : List Int) (kk vk : Kind) : Nat → List Val → List Draw → R (List Val)
+def mapScalars (o : GenOpts) (E : List Int) (kk vk : Kind) : Nat → List Val → List Draw → R (List Val)
   | 0, es, ds => .ok es ds []
   | n+1, es, ds =>
-    (genScalar E kk ds).bind fun k rest =>
-      (genScalar E vk rest).bind fun v rest' =>
-        mapScalars E kk vk n (sortEntries kk (mapPut (kbeqOf kk) es k v)) rest'
+    (genScalar o E kk ds).bind fun k rest =>
+      (genScalar o E vk rest).bind fun v rest' =>
+        mapScalars o E kk vk n (sortEntries kk (mapPut (kbeqOf kk) es k v)) rest'
 
 /-- map with message values: `key ← draw; if !setFields(m.Mutable(key), depth+1) { m.Clear(key) }`;
     `m.Mutable(key)` is the existing value when the key was drawn before. -/
-def mapMsgs (S : Schema) (E : List Int) (child : Nat → Val → List Draw → R (Bool × Val)) (kk : Kind) (mi : Nat) :
-    Nat → List Val → List Draw → R (List Val)
+def mapMsgs (S : Schema) (o : GenOpts) (E : List Int) (child : Nat → Val → List Draw → R (Bool × Val)) (kk : Kind)
+    (mi : Nat) : Nat → List Val → List Draw → R (List Val)
   | 0, es, ds => .ok es ds []
   | n+1, es, ds =>
-    (genScalar E kk ds).bind fun k rest =>
+    (genScalar o E kk ds).bind fun k rest =>
       (child mi (valueOr (findEntry kk es k) (emptyMsg S mi)) rest).bind fun r rest' =>
-        mapMsgs S E child kk mi n
+        mapMsgs S o E child kk mi n
           (if r.1 then sortEntries kk (mapPut (kbeqOf kk) es k r.2) else mapDel kk es k) rest'
 
 /-- `setFieldValue` on field `j` (descriptor `f`) of a message whose slots are `slots` -/
@@ -232,16 +248,16 @@ def genField (S : Schema) (o : GenOpts) (E : List Int) (child : Nat → Val → 
   match f.shape, f.elem with
   | .repeated _, .scalar k =>
     (draw (.count (if o.noEmptyLists then 1 else 0)) ds).bind fun n rest =>
-      (listScalars E k n.getInt.toNat cur.elems rest).map fun es => slots.set j (.list false es)
+      (listScalars o E k n.getInt.toNat cur.elems rest).map fun es => slots.set j (.list false es)
   | .repeated _, .message mi =>
     (draw (.count (if o.noEmptyLists then 1 else 0)) ds).bind fun n rest =>
       (listMsgs S child mi n.getInt.toNat 0 cur.elems rest).map fun es => slots.set j (.list false es)
   | .map kk, .scalar vk =>
     (draw (.count 0) ds).bind fun n rest =>
-      (mapScalars E kk vk n.getInt.toNat cur.elems rest).map fun es => slots.set j (.map false es)
+      (mapScalars o E kk vk n.getInt.toNat cur.elems rest).map fun es => slots.set j (.map false es)
   | .map kk, .message mi =>
     (draw (.count 0) ds).bind fun n rest =>
-      (mapMsgs S E child kk mi n.getInt.toNat cur.elems rest).map fun es => slots.set j (.map false es)
+      (mapMsgs S o E child kk mi n.getInt.toNat cur.elems rest).map fun es => slots.set j (.map false es)
   | .singular, .message mi =>
     -- Mutable: the existing message or a new empty one; Clear when setFields returned false
     (child mi (if cur.isNone then emptyMsg S mi else cur) ds).map fun r =>
@@ -255,15 +271,15 @@ def genField (S : Schema) (o : GenOpts) (E : List Int) (child : Nat → Val → 
        -- field is cleared again afterwards
        (child mi (emptyMsg S mi) ds).map fun r =>
          (clearGroup fs g slots).set j (if r.1 then .one r.2 else .none))
-  | .singular, .scalar k => (genScalar E k ds).map fun v => slots.set j v
-  | .oneof g, .scalar k => (genScalar E k ds).map fun v => (clearGroup fs g slots).set j (.one v)
+  | .singular, .scalar k => (genScalar o E k ds).map fun v => slots.set j v
+  | .oneof g, .scalar k => (genScalar o E k ds).map fun v => (clearGroup fs g slots).set j (.one v)
 
 /-- the loop of `setFields` over the fields (`rem`: the fields from index `j` on) -/
 def genFields (S : Schema) (o : GenOpts) (E : List Int) (child : Nat → Val → List Draw → R (Bool × Val))
     (fs : List FieldDesc) : Nat → List FieldDesc → List Val → List Draw → R (List Val)
   | _, [], slots, ds => .ok slots ds []
   | j, f :: rem, slots, ds =>
-    (draw .bool ds).bind fun g rest =>
+    (draw .flag ds).bind fun g rest =>
       if !g.getBool && isMsgKind f && !o.disallowNil then genFields S o E child fs (j+1) rem slots rest
       else (genField S o E child fs f j slots rest).bind fun slots' rest' =>
         genFields S o E child fs (j+1) rem slots' rest'
@@ -286,7 +302,7 @@ def fuelFor (depth : Nat) : Nat := Extracted.depthLimit + 2 - depth
 /-- `MessageGenerator`: `msg := New()`, the `empty` draw for a type without fields, `setFields(msg, 0)`;
     every draw must have been consumed. On success the rest is `[]`. -/
 def generate (S : Schema) (o : GenOpts) (E : List Int) (i : Nat) (ds : List Draw) : R Val :=
-  (if (S.msg i).fields.isEmpty then (draw .bool ds).map (fun _ => ()) else .ok () ds []).bind fun _ rest =>
+  (if (S.msg i).fields.isEmpty then (draw .flag ds).map (fun _ => ()) else .ok () ds []).bind fun _ rest =>
     (setFields S o E (fuelFor 0) 0 i (emptyMsg S i) rest).bind fun r rest' =>
       if rest'.isEmpty then .ok r.2 [] [] else .stuck rest'.length .leftover
 
@@ -362,5 +378,57 @@ def presentField (f : FieldDesc) (x : Val) : Bool :=
 def nonilLocal (S : Schema) (depth i : Nat) (v : Val) : Bool :=
   decide (depth ≥ Extracted.depthLimit) ||
     ((S.msg i).fields.zip v.slots).all (fun p => presentField p.1 p.2)
+
+/-! ### `FieldMaps` -/
+
+/-- what the harness must supply for the well-formedness theorems: a mapper value has the shape of its kind
+    (`scalarOK`: bits within the width / a blob), is valid UTF-8 for the string kind and a declared number for
+    the enum kind. `fun _ => none` (no `FieldMaps`) satisfies it. -/
+structure MapperOK (E : List Int) (o : GenOpts) : Prop where
+  typed : ∀ k w, o.mapper k = some w → scalarOK k w = true
+  utf8 : ∀ w, o.mapper .string = some w → utf8Valid w.getBlob = true
+  enum : ∀ w, o.mapper .enum = some w → enumDeclared E w = true
+
+/-- the part of `MapperOK` that `msgOK` needs -/
+def MapperTyped (o : GenOpts) : Prop := ∀ k w, o.mapper k = some w → scalarOK k w = true
+
+/-- a scalar of kind `k` holds exactly the mapper's value when the mapper answers for `k` (`Val.beq` is
+    equality: `rp_val_beq_iff`) -/
+def mapVal (o : GenOpts) (k : Kind) (v : Val) : Bool :=
+  match o.mapper k with
+  | some w => Val.beq v w
+  | none => true
+
+/-- `FieldMaps`, one field: every scalar position of the field holds the mapper's value — a singular scalar
+    field (`sing`; it is always set), a oneof scalar member that is set, every list element, every map key
+    and every scalar map value. `sing = false` leaves out the singular scalar fields: this is what a message
+    that has not been filled yet satisfies (its singular scalars hold the zero value). -/
+def mapField (o : GenOpts) (sing : Bool) (f : FieldDesc) (x : Val) : Bool :=
+  match f.shape, f.elem with
+  | .singular, .scalar k => !sing || mapVal o k x
+  | .oneof _, .scalar k => (match x with | .one y => mapVal o k y | _ => true)
+  | .repeated _, .scalar k => x.elems.all (mapVal o k)
+  | .map kk, .scalar vk => x.elems.all (fun en => mapVal o kk en.key && mapVal o vk en.value)
+  | .map kk, .message _ => x.elems.all (fun en => mapVal o kk en.key)
+  | _, _ => true
+
+/-- `FieldMaps`, one message filled by `setFields(…, depth)`. Nothing is claimed beyond the limit, where
+    `setFields` does nothing: the messages the Truncate quirk leaves behind (created at depth
+    `depthLimit + 1`, never filled) hold zero values, not the mapper's. -/
+def mapLocal (S : Schema) (o : GenOpts) (depth i : Nat) (v : Val) : Bool :=
+  decide (depth > Extracted.depthLimit) ||
+    ((S.msg i).fields.zip v.slots).all (fun p => mapField o true p.1 p.2)
+
+/-- what a message given to `setFields` must satisfy for `mapLocal` to hold afterwards: the same without the
+    singular scalar fields. An empty message satisfies it; so does every message that satisfies `mapLocal`
+    (the value `Map.Mutable` returns for a key that was generated before). -/
+def mapLocalPre (S : Schema) (o : GenOpts) (depth i : Nat) (v : Val) : Bool :=
+  decide (depth > Extracted.depthLimit) ||
+    ((S.msg i).fields.zip v.slots).all (fun p => mapField o false p.1 p.2)
+
+/-- a consumed draw that is not a scalar draw for a mapped kind: a `gen-`/`empty` flag, a count, or the draw
+    of the generator of a kind for which no mapper answers -/
+def Ev.unmapped (o : GenOpts) (E : List Int) (e : Ev) : Prop :=
+  e.gen = .flag ∨ (∃ m, e.gen = .count m) ∨ ∃ k, o.mapper k = none ∧ e.gen = scalarGen E k
 
 end Pulsar.Rapidproto
